@@ -1,7 +1,10 @@
 //! Capstone-based translator for PPC.
 
 use crate::il::*;
-use crate::translator::{unhandled_intrinsic, BlockTranslationResult, Options, Translator};
+use crate::translator::{
+    ensure_block_in_address_space, unhandled_intrinsic, BlockTranslationResult, Options,
+    Translator,
+};
 use crate::Error;
 use falcon_capstone::capstone;
 
@@ -48,6 +51,8 @@ fn translate_block(
     address: u64,
     options: &Options,
 ) -> Result<BlockTranslationResult, Error> {
+    ensure_block_in_address_space(address, bytes.len())?;
+
     let mode = capstone::CS_MODE_32 | capstone::CS_MODE_BIG_ENDIAN;
     let cs = match capstone::Capstone::new(capstone::cs_arch::CS_ARCH_PPC, mode) {
         Ok(cs) => cs,
